@@ -289,8 +289,20 @@ func (t *Transaction) Insert(op *ovsdb.Operation) (ovsdb.OperationResult, *updat
 		return ovsdb.ResultFromError(err), nil
 	}
 
+	// the UUID provided for the new row cannot be the one of an existing row
+	existing, err := t.rowsFromTransactionCacheAndDatabase(op.Table, []ovsdb.Condition{
+		ovsdb.NewCondition("_uuid", ovsdb.ConditionEqual, ovsdb.UUID{GoUUID: op.UUID}),
+	})
+	if err != nil {
+		return ovsdb.ResultFromError(err), nil
+	}
+	if len(existing) > 0 {
+		err := ovsdb.NewConstraintViolation(fmt.Sprintf("cannot insert row with uuid %s in table %s: duplicate uuid", op.UUID, op.Table))
+		return ovsdb.ResultFromError(err), nil
+	}
+
 	update := updates.ModelUpdates{}
-	err := update.AddOperation(t.Model, op.Table, op.UUID, nil, op)
+	err = update.AddOperation(t.Model, op.Table, op.UUID, nil, op)
 	if err != nil {
 		return ovsdb.ResultFromError(err), nil
 	}
